@@ -17,7 +17,8 @@ A_SWITCHES = [("d_merge_same_name", "D182"), ("d_deco_rename", "D183"), ("d_chai
 ATOMS = ["1", "2", '"s"', "None", "True", "[1, 2]", "len([3])", "(4, 5)"]
 WRAP_FORMS = ["list", "tuple", "dict", "sub", "cmp", "or", "ifexp", "not", "str", "len", "kw", "listcomp", "listcompif",
               "dictcomp", "setcomp", "nestcomp", "listml", "tupleml", "strml", "cmpml", "listcompml"]
-STMT_FORMS = ["expr", "assign", "ret", "assert", "subassign", "tupassign"]
+STMT_FORMS = ["expr", "assign", "ret", "assert", "subassign", "tupassign", "aug", "ann", "walrus", "attrassign", "starassign",
+              "delsub", "ifexpstmt"]
 BLK_FORMS = ["if", "ifelse", "for", "while", "with"]
 TRY_FORMS = ["none", "finally", "from", "ctx", "swallow"]
 
@@ -89,6 +90,11 @@ def _link_stmt(rng, style_ok_attr, allow_ret=True):
 def gen_fault_stmt(rng, k, allow_ret=True):
     """an abstract statement that raises; k cycles through the exception kinds"""
     r = rng.random()
+    if r < 0.22:
+        # the statement's own operation raises (augmented assignment, stores, unpacking, del, iteration, comparison ...)
+        ops = sorted(o for o in L.OP_FAULTS if allow_ret or o != "retneg")
+        s = {"t": "op", "k": ops[k % len(ops)]}
+        return _nest_stmt(rng, s, rng.choice([0, 0, 1, 2]), allow_swallow=False)
     if r < 0.5:
         exc = L.RAISE_KINDS[k % len(L.RAISE_KINDS)]
         cause = None
@@ -113,13 +119,15 @@ def gen_native_fault(rng, k, kind):
     # StopIteration is left out here: its conversion to RuntimeError (D189) happens at the first coroutine above the native
     # frames, which splits the traceback differently from what the D189 switch models
     if kind != "lambda" and rng.random() < 0.5:
-        pool = [x for x in L.RAISE_KINDS if x != "StopIteration"]
+        # (user classes of the script are interpreter variables; native code cannot rely on them)
+        pool = [x for x in L.RAISE_KINDS if x not in ("StopIteration", "PvErr", "PvErr2")]
         exc = pool[k % len(pool)]
         s = {"t": "raise", "exc": exc, "msg": "m", "cause": None}
     else:
         kinds = sorted(x for x in L.FAULT_EXPR if x != "stopiter")
         e = _wrap_expr(rng, {"t": "f", "k": kinds[k % len(kinds)]}, rng.choice([0, 0, 1]))
-        s = {"t": "s", "form": "expr", "e": e} if kind == "lambda" else _simple_stmt(rng, e)
+        s = ({"t": "s", "form": "expr", "e": e} if kind == "lambda"
+             else {"t": "s", "form": rng.choice(["expr", "assign", "ret", "assert", "tupassign", "ann", "walrus", "aug"]), "e": e})
     if kind != "lambda" and rng.random() < 0.2:
         s = {"t": "blk", "form": rng.choice(["if", "for", "while"]), "e": _atom(rng), "body": [s]}
     return s
@@ -328,6 +336,7 @@ C_SWITCHES = [("d_base_escapes", "D181"), ("d_dm_trig_nowrap", "D180"), ("d_cb_b
 ENTRIES = ["ETrigFunc", "EExprEvent", "EExprState", "EActive", "ETaskCreate", "EService"]
 EXC_KINDS = [k for k in L.RAISE_KINDS if k not in ("PvErr2",)] + ["from:KeyError:ValueError", "from:PvErr:OSError"]
 BASE_KINDS = ["GeneratorExit", "PvBase"]
+LATE_ENTRIES = ["ETrigFunc", "ETaskCreate", "EService"]
 
 
 def kind_class(kind):
@@ -346,7 +355,9 @@ class ContainStream(Stream):
             "kinds (GeneratorExit, user subclass); systematic part: every kind at every entry kind followed by a returning occurrence "
             "at every entry kind, both subsystems; random part: histories of 2-8 occurrences; observed per occurrence: user code ran, "
             "error records on the script's logger / other loggers, asyncio exception handler, exception at the caller, callbacks run; "
-            "at the end a never-raising trigger of the same file and one of another file must still run; non-trivial = a raising "
+            "histories also contain reloads of the script file (edited, or removed/unloaded/restored) and runs of trigger function / "
+            "task.create body / service that are suspended in task.wait_until while their file is reloaded or unloaded and return or "
+            "raise afterwards; at the end a never-raising trigger of the same file and one of another file must still run; non-trivial = a raising "
             "occurrence followed by another occurrence; distinct by the whole case")
     requires = "From PV Require Import Policy.Errors Policy.ErrorsCheck."
     case_type = "ccase"
@@ -375,6 +386,11 @@ class ContainStream(Stream):
                 ents = list(ENTRIES)
                 rng.shuffle(ents)
                 hist = [[e, kind] for e in ents] + [["OCallbacks", [kind, "ret"]]] + [[e, "ret"] for e in ents]
+                if rng.random() < 0.5:
+                    # a reload revives what a BaseException killed; then runs that outlive a reload of their file
+                    hist += [["OReload", rng.choice(["edit", "unload"])]]
+                    hist += [["OLate", e, kind, rng.choice(["edit", "unload"])] for e in LATE_ENTRIES]
+                    hist += [[e, "ret"] for e in ents[:3]]
                 cases.append({"sub": sub, "hist": hist})
         while len(cases) < budget:
             hist = []
@@ -383,8 +399,14 @@ class ContainStream(Stream):
                 def pick():
                     x = rng.random()
                     return "ret" if x < 0.3 else rng.choice(BASE_KINDS) if x < 0.45 else rng.choice(EXC_KINDS)
-                if r < 0.2:
+                if r < 0.15:
                     hist.append(["OCallbacks", [pick() for _ in range(rng.randint(1, 3))]])
+                elif r < 0.23:
+                    # the script file is edited and reloaded, or removed, unloaded, restored and reloaded
+                    hist.append(["OReload", rng.choice(["edit", "unload"])])
+                elif r < 0.45:
+                    # a run is suspended while its file is reloaded / unloaded and ends afterwards
+                    hist.append(["OLate", rng.choice(LATE_ENTRIES), pick(), rng.choice(["edit", "edit", "unload"])])
                 else:
                     hist.append([rng.choice(ENTRIES), pick()])
             cases.append({"sub": rng.choice(["legacy", "dm"]), "hist": hist})
@@ -401,6 +423,10 @@ class ContainStream(Stream):
         for oc in case["hist"]:
             if oc[0] == "OCallbacks":
                 hist.append("(OCallbacks %s)" % q.lst(kind_class(k) for k in oc[1]))
+            elif oc[0] == "OReload":
+                hist.append("OReload")
+            elif oc[0] == "OLate":
+                hist.append(f"(OLate {oc[1]} {kind_class(oc[2])})")
             else:
                 hist.append(f"(OUser {oc[0]} {kind_class(oc[1])})")
         obl = []
@@ -409,16 +435,26 @@ class ContainStream(Stream):
                                                   q.lst(q.boolean(b) for b in o["ran"])))
         return "(mkCCase %s %s %s %s)" % (sub, q.lst(hist), q.lst(obl), q.boolean(bool(obs.get("others_ok"))))
 
+    @staticmethod
+    def _kinds(oc):
+        if oc[0] == "OCallbacks":
+            return list(oc[1])
+        if oc[0] == "OReload":
+            return []
+        if oc[0] == "OLate":
+            return [oc[2]]
+        return [oc[1]]
+
     def nontrivial(self, case, obs):
-        h = case["hist"]
-        return any((oc[1] != "ret" if oc[0] != "OCallbacks" else any(k != "ret" for k in oc[1])) for oc in h[:-1])
+        return any(k != "ret" for oc in case["hist"][:-1] for k in self._kinds(oc))
 
     def kind(self, case, obs):
         ks = set()
         for oc in case["hist"]:
-            for k in (oc[1] if oc[0] == "OCallbacks" else [oc[1]]):
+            for k in self._kinds(oc):
                 ks.add("ret" if k == "ret" else "base" if k in BASE_KINDS else "exc")
-        return f"{case['sub']}/len{len(case['hist'])}/" + "+".join(sorted(ks))
+        tags = ("+late" if any(oc[0] == "OLate" for oc in case["hist"]) else "") + ("+reload" if any(oc[0] == "OReload" for oc in case["hist"]) else "")
+        return f"{case['sub']}/len{len(case['hist'])}/" + "+".join(sorted(ks)) + tags
 
     def describe(self, case, obs):
         return {"sub": case["sub"], "history": case["hist"],
